@@ -225,6 +225,37 @@ def _regrow_split(part, regrow):
     return part[:c], part[c:]
 
 
+# a small independent FFI that the last module of the chain includes *in addition to* (and after) its
+# predecessor: what it declares is reachable only through the second direct include
+SIDE_CDEF = """
+#define C34_SIDE_K 4242
+static const int C34_SIDE_S = -5;
+enum { C34_SIDE_E = 17 };
+typedef struct { int q; char r; } c34_side_t;
+union c34_side_u { int i; double d; };
+"""
+
+
+def check_side(top, side, kind, env):
+    try:
+        if hasattr(top, 'integer_const'):
+            const = top.integer_const
+        else:                                   # in-line FFI: constants are attributes of a dlopen()ed lib
+            _lib = top.dlopen(None)
+            const = lambda name: getattr(_lib, name)
+        got = [const('C34_SIDE_K'), const('C34_SIDE_S'), const('C34_SIDE_E'),
+               top.typeof('c34_side_t') is side.typeof('c34_side_t'),
+               top.typeof('union c34_side_u') is side.typeof('union c34_side_u'),
+               top.sizeof('c34_side_t')]
+    except Exception as e:
+        _fail(env, kind, 'a name declared by the second direct include() of the last module is not found through it: '
+              '%s: %s' % (type(e).__name__, e), side_cdef=SIDE_CDEF)
+    if got != [4242, -5, 17, True, True, 8]:
+        _fail(env, kind, 'names of the second direct include(): constants / type identity / size are %r' % (got,),
+              side_cdef=SIDE_CDEF)
+    env['ctx'].event('second-direct-include:' + kind)
+
+
 def realise_inline(decls, parts, includes, regrow=0):
     import cffi
     ffis = []
@@ -246,6 +277,11 @@ def realise_inline(decls, parts, includes, regrow=0):
         ffis.append(f)
     if halves and len(parts) == 1:
         ffis[0].cdef(cdef_of(decls, halves[1]))
+    if len(parts) >= 2:
+        side = cffi.FFI()
+        side.cdef(SIDE_CDEF)
+        ffis[-1].include(side)
+        ffis[-1]._c34_side = side
     return ffis
 
 
@@ -270,6 +306,13 @@ def realise_abi(decls, parts, includes, pkgdir, regrow=0):
         builders.append(f)
     if halves and len(parts) == 1:
         builders[0].cdef(cdef_of(decls, halves[1]))
+    side = None
+    if len(parts) >= 2:
+        side = cffi.FFI()
+        side.cdef(SIDE_CDEF)
+        side.set_source(stem + '_side', None)
+        side.emit_python_code(os.path.join(pkgdir, stem + '_side.py'))
+        builders[-1].include(side)
     for k, f in enumerate(builders):
         name = '%s_%d' % (stem, k)
         f.set_source(name, None)
@@ -277,7 +320,13 @@ def realise_abi(decls, parts, includes, pkgdir, regrow=0):
     importlib.invalidate_caches()
     for k in range(len(parts)):
         mods.append(importlib.import_module('%s_%d' % (stem, k)))
-    return [m.ffi for m in mods]
+    out = [m.ffi for m in mods]
+    if side is not None:
+        _SIDES[id(out[-1])] = (out[-1], importlib.import_module(stem + '_side').ffi)
+    return out
+
+
+_SIDES = {}
 
 
 def pick_partial(case, decls, parts):
@@ -365,8 +414,13 @@ def prop(case, ctx):
         ctx.event('base ffi grows after being included, then is included again')
     ffis = run('inline', lambda: realise_inline(decls, parts, includes, regrow))
     check_shared(env, 'inline', ffis)
+    if getattr(ffis[-1], '_c34_side', None) is not None:
+        check_side(ffis[-1], ffis[-1]._c34_side, 'inline', env)
     ffis = run('abi', lambda: realise_abi(decls, parts, includes, ctx.state, regrow))
     check_shared(env, 'abi', ffis)
+    side = _SIDES.pop(id(ffis[-1]), None)
+    if side is not None:
+        check_side(ffis[-1], side[1], 'abi', env)
     if case['api']:
         mods, partial = run('api', lambda: realise_api(case, decls, parts, includes, ctx.tmp))
         ctx.event('api chain' + (' with a "...;" struct in an included module' if partial is not None else ''))
